@@ -94,6 +94,7 @@ type Result struct {
 	NameMap   []EnumVal `json:"name_map"`   // pb.go ErrorCode_name
 
 	SrvFunc     string    `json:"srv_func"`
+	SrvShape    string    `json:"srv_shape"` // "switch" | "map" ("" when not recognised)
 	SrvFuncPos  string    `json:"srv_func_pos"`
 	SrvInitial  string    `json:"srv_initial"`
 	SrvDefault  string    `json:"srv_default"` // code of an error matching no case
@@ -636,6 +637,11 @@ func (t *tr) readSrvMapper() {
 		return
 	}
 	st := fd.Body.List
+	if len(st) >= 3 && nilCheck(st[0], p) && isMapLookup(st[1], p) {
+		// the other table shape: a lookup in a package-level map literal keyed by the error values
+		t.readSrvMapShape(files, fd, imp, p, st)
+		return
+	}
 	if len(st) != 4 {
 		*R = append(*R, fmt.Sprintf("%s: body has %d statements, expected 4 (nil check; code variable; switch; return)", t.pos(fd), len(st)))
 		return
@@ -683,33 +689,7 @@ func (t *tr) readSrvMapper() {
 	}
 	t.res.SrvInitial = initial
 	// return &pb.Error{Code: cv, ...}
-	okRet := false
-	if rs, ok := st[3].(*ast.ReturnStmt); ok && len(rs.Results) == 1 {
-		if u, ok := rs.Results[0].(*ast.UnaryExpr); ok && u.Op == token.AND {
-			if cl, ok := u.X.(*ast.CompositeLit); ok {
-				if se, ok := cl.Type.(*ast.SelectorExpr); ok && se.Sel.Name == "Error" {
-					if x, ok := se.X.(*ast.Ident); ok && t.isProtos(imp[x.Name]) {
-						n := 0
-						for _, el := range cl.Elts {
-							kv, ok := el.(*ast.KeyValueExpr)
-							if !ok {
-								n = -100
-								break
-							}
-							if k, ok := kv.Key.(*ast.Ident); ok && k.Name == "Code" {
-								if v, ok := kv.Value.(*ast.Ident); ok && v.Name == cv {
-									n++
-								} else {
-									n = -100
-								}
-							}
-						}
-						okRet = n == 1
-					}
-				}
-			}
-		}
-	}
+	okRet := t.retUsesVar(st[3], cv, imp)
 	if !okRet {
 		*R = append(*R, t.pos(st[3])+": expected `return &pb.Error{Code: "+cv+", ...}`")
 		return
@@ -724,10 +704,7 @@ func (t *tr) readSrvMapper() {
 		return
 	}
 	deflt := initial
-	type row struct {
-		goName, code, pos string
-	}
-	var rows []row
+	var rows []srvRowT
 	bad := false
 	for _, c := range sw.Body.List {
 		cc := c.(*ast.CaseClause)
@@ -776,10 +753,22 @@ func (t *tr) readSrvMapper() {
 				continue
 			}
 			_ = ipath
-			rows = append(rows, row{gn, code, t.pos(cc)})
+			rows = append(rows, srvRowT{gn, code, t.pos(cc)})
 		}
 		t.res.SrvCases = append(t.res.SrvCases, sc)
 	}
+	t.res.SrvShape = "switch"
+	t.finishSrv(rows, deflt, bad)
+}
+
+// srvRowT: one (error variable, code) pair of the server-side table, with the clause that decides it.
+type srvRowT struct {
+	goName, code, pos string
+}
+
+// finishSrv: the identity check of the error variables, then one row per constructor of Model/Err.v.
+func (t *tr) finishSrv(rows []srvRowT, deflt string, bad bool) {
+	R := &t.res.SrvReasons
 	// identity: every module-defined error variable of Model/Err.v must be its own errors.New value
 	for _, ec := range t.res.ErrCtors {
 		if why := t.checkErrVarFresh(ec.GoName); why != "" {
@@ -810,6 +799,211 @@ func (t *tr) readSrvMapper() {
 		t.res.SrvRows = append(t.res.SrvRows, r)
 	}
 }
+
+// retUsesVar recognises `return &pb.Error{Code: cv, ...}` (fields in any order, Code given exactly once, by the variable).
+func (t *tr) retUsesVar(s ast.Stmt, cv string, imp map[string]string) bool {
+	rs, ok := s.(*ast.ReturnStmt)
+	if !ok || len(rs.Results) != 1 {
+		return false
+	}
+	u, ok := rs.Results[0].(*ast.UnaryExpr)
+	if !ok || u.Op != token.AND {
+		return false
+	}
+	cl, ok := u.X.(*ast.CompositeLit)
+	if !ok {
+		return false
+	}
+	se, ok := cl.Type.(*ast.SelectorExpr)
+	if !ok || se.Sel.Name != "Error" {
+		return false
+	}
+	x, ok := se.X.(*ast.Ident)
+	if !ok || !t.isProtos(imp[x.Name]) {
+		return false
+	}
+	n := 0
+	for _, el := range cl.Elts {
+		kv, ok := el.(*ast.KeyValueExpr)
+		if !ok {
+			return false
+		}
+		if k, ok := kv.Key.(*ast.Ident); ok && k.Name == "Code" {
+			if v, ok := kv.Value.(*ast.Ident); ok && v.Name == cv {
+				n++
+			} else {
+				return false
+			}
+		}
+	}
+	return n == 1
+}
+
+// isMapLookup recognises `c := M[p]` and `c, ok := M[p]` (M and p identifiers).
+func isMapLookup(s ast.Stmt, p string) bool {
+	as, ok := s.(*ast.AssignStmt)
+	if !ok || as.Tok != token.DEFINE || len(as.Rhs) != 1 || len(as.Lhs) < 1 || len(as.Lhs) > 2 {
+		return false
+	}
+	ix, ok := as.Rhs[0].(*ast.IndexExpr)
+	if !ok {
+		return false
+	}
+	_, ok1 := ix.X.(*ast.Ident)
+	id, ok2 := ix.Index.(*ast.Ident)
+	return ok1 && ok2 && id.Name == p
+}
+
+// readSrvMapShape reads the server-side table when it is written as
+//
+//	var M = map[error]pb.ErrorCode{pkg.ErrX: pb.ErrorCode_Y, ...}      (package level, referenced nowhere else)
+//	func f(e error) *pb.Error {
+//		if e == nil { return nil }
+//		c, ok := M[e]                          (or `c := M[e]`: a missing key gives the enum's zero value)
+//		if !ok { c = pb.ErrorCode_Z }
+//		return &pb.Error{Code: c, ...}
+//	}
+//
+// A map lookup compares keys with ==, as `switch e { case pkg.ErrX: }` does, so on every error value of Model/Err.v the two
+// shapes are the same function (they differ only on values of an unhashable dynamic type: the lookup panics, the switch
+// does not match; no constructor of Model/Err.v is such a value). Anything that could change the map after its literal
+// (any other mention of M in the package), a repeated key or a non-constant value makes the shape unrecognised.
+func (t *tr) readSrvMapShape(files []*ast.File, fd *ast.FuncDecl, imp map[string]string, p string, st []ast.Stmt) {
+	R := &t.res.SrvReasons
+	as := st[1].(*ast.AssignStmt)
+	ix := as.Rhs[0].(*ast.IndexExpr)
+	mname := ix.X.(*ast.Ident).Name
+	cvId, ok := as.Lhs[0].(*ast.Ident)
+	if !ok || cvId.Name == "_" || cvId.Name == mname || p == mname {
+		*R = append(*R, t.pos(st[1])+": expected `code[, ok] := <table>["+p+"]`")
+		return
+	}
+	cv := cvId.Name
+	deflt := ""
+	var ret ast.Stmt
+	switch {
+	case len(as.Lhs) == 2 && len(st) == 4:
+		okId, isId := as.Lhs[1].(*ast.Ident)
+		is, isIf := st[2].(*ast.IfStmt)
+		good := false
+		if isId && isIf && okId.Name != "_" && is.Init == nil && is.Else == nil && len(is.Body.List) == 1 {
+			if u, ok := is.Cond.(*ast.UnaryExpr); ok && u.Op == token.NOT {
+				if c, ok := u.X.(*ast.Ident); ok && c.Name == okId.Name {
+					if a2, ok := is.Body.List[0].(*ast.AssignStmt); ok && a2.Tok == token.ASSIGN && len(a2.Lhs) == 1 && len(a2.Rhs) == 1 {
+						if l, ok := a2.Lhs[0].(*ast.Ident); ok && l.Name == cv {
+							if cd, ok := t.enumSel(a2.Rhs[0], imp); ok {
+								deflt, good = cd, true
+							}
+						}
+					}
+				}
+			}
+		}
+		if !good {
+			*R = append(*R, t.pos(st[2])+": expected `if !ok { "+cv+" = pb.ErrorCode_X }` after the lookup")
+			return
+		}
+		ret = st[3]
+	case len(as.Lhs) == 1 && len(st) == 3:
+		for _, e := range t.res.Enum {
+			if e.Num == 0 {
+				deflt = e.Name
+			}
+		}
+		if deflt == "" {
+			*R = append(*R, t.pos(st[1])+": a missing key gives the zero ErrorCode, and the enum has no value 0")
+			return
+		}
+		ret = st[2]
+	default:
+		*R = append(*R, fmt.Sprintf("%s: body has %d statements, expected nil check; lookup; [if !ok {...}]; return", t.pos(fd), len(st)))
+		return
+	}
+	if !t.retUsesVar(ret, cv, imp) {
+		*R = append(*R, t.pos(ret)+": expected `return &pb.Error{Code: "+cv+", ...}`")
+		return
+	}
+	// the table
+	val, mfile, vs, found := pkgVar(files, mname)
+	if !found || val == nil {
+		*R = append(*R, t.pos(st[1])+": "+mname+" is not a package-level variable with an initial value")
+		return
+	}
+	cl, ok := val.(*ast.CompositeLit)
+	mt, isMap := ast.Expr(nil), false
+	if ok {
+		mt = cl.Type
+	}
+	if m, ok := mt.(*ast.MapType); ok {
+		mimp := imports(mfile)
+		if k, ok := m.Key.(*ast.Ident); ok && k.Name == "error" {
+			if se, ok := m.Value.(*ast.SelectorExpr); ok && se.Sel.Name == "ErrorCode" {
+				if x, ok := se.X.(*ast.Ident); ok && t.isProtos(mimp[x.Name]) {
+					isMap = true
+				}
+			}
+		}
+	}
+	if !isMap {
+		*R = append(*R, t.pos(vs)+": "+mname+" is not a `map[error]pb.ErrorCode{...}` literal")
+		return
+	}
+	// nothing else may mention the table: it could be changed after its literal
+	uses := 0
+	for _, f := range files {
+		ast.Inspect(f, func(n ast.Node) bool {
+			if id, ok := n.(*ast.Ident); ok && id.Name == mname {
+				uses++
+			}
+			return true
+		})
+	}
+	if uses != 2 {
+		*R = append(*R, fmt.Sprintf("%s: %s is mentioned %d times in the package besides its declaration and the lookup (it may be modified)", t.pos(vs), mname, uses-2))
+		return
+	}
+	mimp := imports(mfile)
+	var rows []srvRowT
+	seen := map[string]bool{}
+	bad := false
+	for _, el := range cl.Elts {
+		kv, ok := el.(*ast.KeyValueExpr)
+		if !ok {
+			*R = append(*R, t.pos(el)+": table element is not `key: value`")
+			bad = true
+			continue
+		}
+		gn, _, ok := errGoName(kv.Key, mimp, "grpc")
+		if !ok {
+			*R = append(*R, t.pos(kv.Key)+": table key is not an error variable")
+			bad = true
+			continue
+		}
+		code, ok := t.enumSel(kv.Value, mimp)
+		if !ok {
+			*R = append(*R, t.pos(kv.Value)+": table value is not `pb.ErrorCode_X`")
+			bad = true
+			continue
+		}
+		if seen[gn] {
+			*R = append(*R, t.pos(kv.Key)+": key "+gn+" is repeated in the table")
+			bad = true
+			continue
+		}
+		seen[gn] = true
+		if _, known := t.ctorOf[gn]; !known {
+			*R = append(*R, t.pos(kv.Key)+": key "+gn+" has no constructor in Model/Err.v")
+			bad = true
+			continue
+		}
+		t.res.SrvCases = append(t.res.SrvCases, SrvCase{Pos: t.pos(kv), Errs: []string{gn}, Code: code})
+		rows = append(rows, srvRowT{gn, code, t.pos(kv)})
+	}
+	t.res.SrvInitial = deflt
+	t.res.SrvShape = "map"
+	t.finishSrv(rows, deflt, bad)
+}
+
 
 // checkErrVarFresh: "" when goName ("pkg.Var") is a package-level variable of a module package
 // defined as errors.New(...), or lives outside the module (context.*), or is not a variable name.
